@@ -114,8 +114,8 @@ func (r *Recorder) on(ev *nutsdb.VerifEvent) *nutsdb.VerifFault {
 		if f.seen == f.At {
 			f.Fired = true
 			p := f.Partial
-			if p > len(ev.Data) {
-				p = len(ev.Data)
+			if p >= len(ev.Data) && len(ev.Data) > 0 {
+				p = len(ev.Data) - 1 // a failed write is never complete: at least the last byte is missing
 			}
 			// A failed write must leave the record incomplete on disk: if the omitted
 			// suffix is all zero bytes the preallocated (zero-filled) segment already
